@@ -1,7 +1,8 @@
 /-
   C02 for Cargo at the level of parsed requirements: `VersionRequirement::satisfies` (model `Crates.satisfiesReq`) is
   the semver crate's `matches_comparator` (without the prerelease gate) of the comparator it denotes, for every
-  requirement whose operand has no build metadata and every build-free candidate.
+  requirement and every candidate (build metadata takes no part on either side: the code compares by SemVer precedence
+  since the repair of F-C02-6).
 -/
 import Vlsp.Props.C02Ast
 import Vlsp.Spec.CratesDenote
@@ -22,23 +23,14 @@ theorem cmpPre_eq_iff (a b : Text) : a = b ↔ ordNum (cmpPre a b) = 1 := by
   · rintro rfl; exact Std.ReflCmp.compare_self
   · exact cmpPre_eq
 
-/-- structural equality of build-free versions, componentwise -/
-theorem ver_eq_iff (x v : Version) (hb : x.build = []) (hr : v.build = []) :
-    x = v ↔ x.major = v.major ∧ x.minor = v.minor ∧ x.patch = v.patch ∧ ordNum (cmpPre x.pre v.pre) = 1 := by
-  rw [← cmpPre_eq_iff]
-  constructor
-  · rintro rfl; exact ⟨rfl, rfl, rfl, rfl⟩
-  · intro ⟨h1, h2, h3, h4⟩
-    cases x; cases v; simp_all
-
 theorem ite_true_iff (c : Prop) [Decidable c] (a b : Bool) :
     (if c then a else b) = true ↔ (c ∧ a = true) ∨ (¬c ∧ b = true) := by
   by_cases h : c <;> simp [h]
 
-/-- **for every parsed requirement without build metadata and every build-free candidate, the code's `satisfies` is
-    the semver crate's `matches_comparator`** (each side is turned into a formula over the three numbers and the
-    prerelease comparison; `omega` decides the equivalence) -/
-theorem c02_crates_ast (r : Crates.Req) (x : Version) (hr : reqBuildFree r = true) (hb : x.build = []) :
+/-- **for every parsed requirement and every candidate, the code's `satisfies` is the semver crate's
+    `matches_comparator`** (each side is turned into a formula over the three numbers and the prerelease comparison;
+    `omega` decides the equivalence) -/
+theorem c02_crates_ast (r : Crates.Req) (x : Version) :
     Crates.satisfiesReq r x = (match toRefC r with | some c => matchesComparator c x | none => true) := by
   cases r with
   | any => rfl
@@ -47,71 +39,63 @@ theorem c02_crates_ast (r : Crates.Req) (x : Version) (hr : reqBuildFree r = tru
   | wildcardMinor m n =>
     simp only [Crates.satisfiesReq, toRefC, matchesComparator, matchesExact, Bool.and_true]
   | exact v =>
-    simp only [reqBuildFree, isEmpty_iff] at hr
     simp only [Crates.satisfiesReq, toRefC, fullC, matchesComparator, matchesExact]
     rw [Bool.eq_iff_iff]
-    simp only [beq_iff_eq, Bool.and_eq_true, ver_eq_iff x v hb hr, cmpPre_eq_iff]
+    simp only [beq_iff_eq, Bool.and_eq_true, peq_iff, cmp4_eq, cmpPre_eq_iff]
     omega
   | gte v =>
-    simp only [reqBuildFree, isEmpty_iff] at hr
     simp only [Crates.satisfiesReq, toRefC, fullC, matchesComparator, matchesExact, matchesGreater]
     rw [Bool.eq_iff_iff]
     have := ordNum_le (cmpPre x.pre v.pre)
-    simp only [ge_iff x v hb hr, cmp4_lt, ite_true_iff, bne_iff_ne, ne_eq, decide_eq_true_eq, preGt_iff, Bool.false_eq_true,
+    simp only [pge_iff, cmp4_lt, ite_true_iff, bne_iff_ne, ne_eq, decide_eq_true_eq, preGt_iff, Bool.false_eq_true,
       Bool.or_eq_true, Bool.and_eq_true, beq_iff_eq, cmpPre_eq_iff]
     omega
   | gt v =>
-    simp only [reqBuildFree, isEmpty_iff] at hr
     simp only [Crates.satisfiesReq, toRefC, fullC, matchesComparator, matchesGreater]
     rw [Bool.eq_iff_iff]
-    simp only [gt_iff x v hb hr, cmp4_gt, ite_true_iff, bne_iff_ne, ne_eq, decide_eq_true_eq, preGt_iff, Bool.false_eq_true]
+    simp only [pgt_iff, cmp4_gt, ite_true_iff, bne_iff_ne, ne_eq, decide_eq_true_eq, preGt_iff, Bool.false_eq_true]
     omega
   | lte v =>
-    simp only [reqBuildFree, isEmpty_iff] at hr
     simp only [Crates.satisfiesReq, toRefC, fullC, matchesComparator, matchesExact, matchesLess]
     rw [Bool.eq_iff_iff]
     have := ordNum_le (cmpPre x.pre v.pre)
-    simp only [le_iff x v hb hr, cmp4_gt, ite_true_iff, bne_iff_ne, ne_eq, decide_eq_true_eq, preLt_iff, Bool.false_eq_true,
+    simp only [ple_iff, cmp4_gt, ite_true_iff, bne_iff_ne, ne_eq, decide_eq_true_eq, preLt_iff, Bool.false_eq_true,
       Bool.or_eq_true, Bool.and_eq_true, beq_iff_eq, cmpPre_eq_iff]
     omega
   | lt v =>
-    simp only [reqBuildFree, isEmpty_iff] at hr
     simp only [Crates.satisfiesReq, toRefC, fullC, matchesComparator, matchesLess]
     rw [Bool.eq_iff_iff]
-    simp only [lt_iff x v hb hr, cmp4_lt, ite_true_iff, bne_iff_ne, ne_eq, decide_eq_true_eq, preLt_iff, Bool.false_eq_true]
+    simp only [plt_iff, cmp4_lt, ite_true_iff, bne_iff_ne, ne_eq, decide_eq_true_eq, preLt_iff, Bool.false_eq_true]
     omega
   | tilde v =>
-    simp only [reqBuildFree, isEmpty_iff] at hr
     simp only [Crates.satisfiesReq, toRefC, fullC, matchesComparator, matchesTilde]
     rw [Bool.eq_iff_iff]
-    simp only [ge_iff x v hb hr, cmp4_lt, ite_true_iff, bne_iff_ne, ne_eq, decide_eq_true_eq, preGe_iff, Bool.false_eq_true,
+    simp only [pge_iff, cmp4_lt, ite_true_iff, bne_iff_ne, ne_eq, decide_eq_true_eq, preGe_iff, Bool.false_eq_true,
       Bool.and_eq_true, beq_iff_eq, and_false, false_or, or_false, Decidable.not_not]
     omega
   | caret v =>
-    simp only [reqBuildFree, isEmpty_iff] at hr
     simp only [Crates.satisfiesReq, toRefC, fullC, matchesComparator, matchesCaret]
     rw [Bool.eq_iff_iff]
-    have hl := lt_iff x v hb hr
+    have hl := plt_iff x v
     rw [cmp4_lt] at hl
     simp only [ite_true_iff, hl, bne_iff_ne, ne_eq, decide_eq_true_eq, preGe_iff, Bool.false_eq_true, Bool.or_eq_true,
       Bool.and_eq_true, beq_iff_eq, and_false, false_or]
     omega
 
-theorem c02_crates_spec_ast (rs : List Crates.Req) (x : Version) (hs : rs.all reqBuildFree = true) (hb : x.build = []) :
+theorem c02_crates_spec_ast (rs : List Crates.Req) (x : Version) :
     Crates.satisfies rs x = CargoReq.sat (reqsRef rs) x := by
   unfold Crates.satisfies CargoReq.sat reqsRef
   induction rs with
   | nil => rfl
   | cons r rest ih =>
-    simp only [List.all_cons, Bool.and_eq_true] at hs
     simp only [List.all_cons, List.filterMap_cons]
-    rw [c02_crates_ast r x hs.1 hb, ih hs.2]
+    rw [c02_crates_ast r x, ih]
     cases toRefC r with
     | none => simp
     | some c => simp
 
 /-- from one evaluation to all candidates, as for npm -/
-theorem c02_crates_same_reading (spec : Text) (h : sameReadingCrates spec = "same") (x : Version) (hb : x.build = []) :
+theorem c02_crates_same_reading (spec : Text) (h : sameReadingCrates spec = "same") (x : Version) :
     ∃ s r, Crates.parseSpec spec = some s ∧ CargoReq.parse spec = some r ∧ Crates.satisfies s x = CargoReq.sat r x := by
   unfold sameReadingCrates at h
   cases hs : Crates.parseSpec spec with
@@ -122,16 +106,11 @@ theorem c02_crates_same_reading (spec : Text) (h : sameReadingCrates spec = "sam
     | some r =>
       rw [hs, hr] at h
       simp only at h
-      cases hbf : s.all reqBuildFree with
-      | false => rw [hbf] at h; simp at h
-      | true =>
-        rw [hbf] at h
-        simp only [Bool.not_true, Bool.false_eq_true, if_false] at h
-        have heq : reqsRef s = r := by
-          by_cases hq : (reqsRef s == r) = true
-          · exact eq_of_beq hq
-          · rw [if_neg hq] at h; simp at h
-        exact ⟨s, r, rfl, rfl, by rw [c02_crates_spec_ast s x hbf hb, heq]⟩
+      have heq : reqsRef s = r := by
+        by_cases hq : (reqsRef s == r) = true
+        · exact eq_of_beq hq
+        · rw [if_neg hq] at h; simp at h
+      exact ⟨s, r, rfl, rfl, by rw [c02_crates_spec_ast s x, heq]⟩
 
 example : Crates.satisfiesReq (.caret ⟨0, 0, 3, [], []⟩) ⟨0, 0, 3, [], []⟩ = true ∧
     matchesComparator (fullC .caret ⟨0, 0, 3, [], []⟩) ⟨0, 0, 3, [], []⟩ = true := by decide
